@@ -101,7 +101,8 @@ def rule_vacant(E, R):
             continue
         body = h["body"]
         S = sem.Sem(E, h)
-        entries = [x for x in S.sites() if x.node.get("k") == "MethodCall" and x.node["m"] == "entry" and _reg_field(x.node["recv"]) == mapf]
+        entries = [x for x in S.sites() if x.node.get("k") == "MethodCall" and x.node["m"] == "entry" and
+                   _reg_field(S.resolve(x.node["recv"], x.frame).node) == mapf]
         if len(entries) != 1:
             R.violation(rule, fn, "registration goes through `%s.entry(key)`" % mapf, "%d entry() calls on the table" % len(entries), h["span"])
             continue
@@ -110,9 +111,15 @@ def rule_vacant(E, R):
         where_ = lambda x: sem.nested_variants(x.pc, on_entry, "Entry")
         # the key is the complete name / the type
         key = ent.node["args"][0]
-        kn = "param#1" if is_param(chain(key)[0], h, 1) else local_name(chain(key)[0])
+        kn = "param#1" if sem.param_index(S, key, ent.frame) == 1 else local_name(chain(key)[0])
         R.check(kn == "param#1" and not ent.pc, rule, fn, "the entry key is the complete %s" % ("name" if mapf == "items" else "type"), str(kn), ent.node["sp"])
         leaves = S.result_leaves()
+        # failures of a private helper that is used with `?` are failures of this function
+        for fr_ in {x.frame for x in S.sites() if x.frame is not S.root}:
+            used_with_try = any(sem.is_try(y.node) and sem.peel(sem.try_inner(y.node)) is fr_.call for y in S.sites())
+            if used_with_try:
+                leaves = leaves + [x for x in S._leaves(fr_.h["body"], lambda s_, fr_=fr_: s_.frame is fr_ and not s_.in_closure)
+                                   if norm(x.node.get("callee", "")) == "core::result::Result::Err"]
         vac_ok = [x for x in leaves if norm(x.node.get("callee", "")) == "core::result::Result::Ok" and where_(x) == {"Vacant"}]
         occ_err = [x for x in leaves if norm(x.node.get("callee", "")) == "core::result::Result::Err" and where_(x) == {"Occupied"}]
         if not vac_ok or not occ_err:
